@@ -7,7 +7,9 @@ with wrap on values up to one box outside) is deposited ALONE on a fresh (or pre
 guard zones and compared cell by cell with the continuous kernel (vf/c06_ref.py).  On top of that:
 roll under whole-cell shifts, additivity of all ordered pairs of a reduced alphabet, multi-particle deposits
 under every accepted (nthread, npartition, sort, coord) setting, accumulation, in-place wrap of the input,
-and the same particles through power_spectrum.get_field.  A second worker pool repeats the reduced
+negative sub-cell offsets (coordinates below -1/2 at the lower faces), supplied grids that are not C-contiguous
+(Fortran order, padded view, interior block: the caller's array must gain the deposit, twice), and the same
+particles through power_spectrum.get_field.  A second worker pool repeats the reduced
 sweeps with NUMBA_BOUNDSCHECK=1.
 """
 import os
@@ -34,7 +36,7 @@ ASSUMPTIONS = [
     'kernel_ref = continuous TSC/CIC window at periodically repeated cell centres, evaluated in long double from the exact input values',
     'tolerance per cell = prod(W_a + delta_a) - prod(W_a) + R*deposit, delta_a = 3 eps_pos (g_a + 2) cells, R = 16 eps_pos + 16 eps_grid; '
     'zero tolerance (bitwise equality with the reference) for coordinates that are multiples of 1/4 cell on a power-of-two cell size',
-    'offset <= 1/2 of the smallest cell; 3-D grids with >= 2 cells per axis for TSC, (4,4,1) additionally for CIC (TSC on a one-cell-thick grid is tracked in C11)',
+    'offset in {-3/4, -1/2, -1/4, 0, 1/4, 1/2} of the smallest cell; 3-D grids with >= 2 cells per axis for TSC, (4,4,1) additionally for CIC (TSC on a one-cell-thick grid is tracked in C11)',
     'npartition == n1d//2 > 1 with nthread > 1 is excluded here (C07)',
     'get_field is inverted through its documented normalisation overdens = field/mean - 1; with weights only the shape (proportionality) is compared',
 ]
@@ -76,7 +78,7 @@ def maybe_rejected(c):
 
 
 def bounds(tier):
-    return dict(tsc_shapes=TSC_SHAPES, cic_shapes=CIC_SHAPES, dtypes=['float32', 'float64'], offsets_in_min_cells=[0, 0.25, 0.5],
+    return dict(tsc_shapes=TSC_SHAPES, cic_shapes=CIC_SHAPES, dtypes=['float32', 'float64'], offsets_in_min_cells=[-0.75, -0.5, -0.25, 0, 0.25, 0.5], supplied_grid_layouts=['C', 'F', 'padded [:, :, :n] view', 'interior block'],
                 weights=[None, 1, 2.5, 0, 'mix(1,2.5,0,0.5,3)'], nthread=[1, 2, 4], npartition=[None, 1, 2],
                 boxes='cell size 1 (cubes) / integer cell sizes (anisotropic), 2000, 1, and per (grid, dtype) the smallest integer box for '
                       'which (Box + half cell) * (g/Box) rounds above g + 1/2', tier=tier)
@@ -87,7 +89,7 @@ BOUNDS = bounds
 
 def _case(**kw):
     d = dict(e='tp', shape=None, pdt='f4', gdt=None, box=1.0, offk=0, wk='none', nth=1, npart=None, coord=0, sort=False,
-             wrap=True, mode='single', sweep='red', acc=False, darg='arr')
+             wrap=True, mode='single', sweep='red', acc=False, darg='arr', lay='C')
     d.update(kw)
     if d['gdt'] is None:
         d['gdt'] = d['pdt']
@@ -107,6 +109,8 @@ def gkey(c):
     """cases that need a rarely used (and slow to compile: no on-disk cache) specialisation of the kernels are run
     together in one task, so that only one worker process compiles it.  Purely a scheduling matter."""
     env = c.get('env') or ''
+    if c.get('lay', 'C') != 'C':
+        return f"layout:{c['pdt']}:{env}"
     if c['e'] in ('gft', 'gfc'):
         return f"getfield:{c['pdt']}:{env}"
     if uses_partition(c):
@@ -126,7 +130,7 @@ def cases(tier, seed):
         c['ul'] = 1 if tier == 'quick' else 2
         cs = [c]
         # the reduced sweeps are repeated in a bounds-checking process
-        if c['sweep'] in ('red', 'mini') and c['mode'] in ('single', 'pair', 'multi') and (tier != 'quick' or c['offk'] == 2 or c['e'] != 'tp'):
+        if c['sweep'] in ('red', 'mini') and c['mode'] in ('single', 'pair', 'multi') and (tier != 'quick' or c['offk'] in (2, -3) or c['e'] != 'tp'):
             b = dict(c)
             b['env'] = 'bchk'
             cs.append(b)
@@ -181,6 +185,59 @@ def _cases(tier, seed):
                 yield _case(e='ts', shape=shape, pdt=pdt, box=box, offk=offk, sweep='red', wrap=False, rb=1)
                 if shape[0] == shape[1]:
                     yield _case(e='gft', shape=shape, pdt=pdt, box=box, offk=offk, sweep='mini', rb=1)
+    # ------------------------------------------------------------------ A". NEGATIVE sub-cell offsets (-1/4, -1/2, -3/4 of the smallest cell):
+    # particles within |offset| of the lower faces have (pos+offset)/h < 0, down to < -1/2 (nearest cell -1 == g-1)
+    for si, shape in enumerate(TSC_SHAPES):
+        bxs = boxes_for(shape)
+        cube = shape[0] == shape[1]
+        for pdt in ('f4', 'f8'):
+            for offk in (-1, -2, -3):
+                blist = [bxs[(si - offk + (pdt == 'f8') + rot) % 3]] if Q else bxs
+                for box in blist:
+                    for a in range(3):
+                        yield _case(e='tp', shape=shape, pdt=pdt, box=box, offk=offk, sweep=f'axis{a}m' if Q else f'axis{a}', acc=(a == 1))
+                    if not Q and shape[0] * shape[1] * shape[2] <= 27 and box == bxs[(si - offk) % 3]:
+                        yield _case(e='tp', shape=shape, pdt=pdt, box=box, offk=offk, sweep='cube')
+                box = bxs[(si - offk + 1) % 3]
+                yield _case(e='ts', shape=shape, pdt=pdt, box=box, offk=offk, sweep='red', wrap=False, acc=(offk == -2))
+                yield _case(e='tp', shape=shape, pdt=pdt, box=box, offk=offk, sweep='red', wrap=False, wk='2.5')
+                yield _case(e='tp', shape=shape, pdt=pdt, box=bxs[(si - offk + 2) % 3], offk=offk, sweep='red', wk='1' if offk == -1 else 'none')
+                for wrap in (True, False):
+                    if Q and (offk != -3 or wrap != (si % 2 == 0)):
+                        continue
+                    for a in range(3):
+                        yield _case(shape=shape, pdt=pdt, box=bxs[(si + a + wrap) % 3], offk=offk, wrap=wrap, mode='roll', sweep=f'axis{a}m', coord=a)
+                if not Q or offk == -3:
+                    yield _case(shape=shape, pdt=pdt, box=bxs[(si - offk) % 3], offk=offk, mode='pair', sweep='mini', wrap=False)
+                for k, (nth, npart) in enumerate(tconfigs(shape[0])):
+                    if Q and offk != -3 and k % 3 != (-offk) % 3:
+                        continue
+                    yield _case(shape=shape, pdt=pdt, box=bxs[(k - offk) % 3], offk=offk, mode='multi', sweep='red', wk='mix',
+                                nth=nth, npart=npart, sort=(k % 2 == 1), acc=(k % 2 == 0))
+                if cube:
+                    gi = CUBES.index(shape[0])
+                    for wk in ('none', '2.5'):
+                        k = gi - offk + (wk != 'none')
+                        yield _case(e='gft', shape=shape, pdt=pdt, box=bxs[k % 3], offk=offk, wk=wk, sweep='mini')
+                        yield _case(e='gfc', shape=shape, pdt=pdt, box=bxs[(k + 1) % 3], offk=offk, wk=wk, sweep='mini', wrap=False)
+                    yield _case(e='gft', shape=shape, pdt=pdt, box=bxs[-offk % 3], offk=offk, wk='mix', sweep='red', mode='multi')
+                    yield _case(e='gfc', shape=shape, pdt=pdt, box=bxs[-offk % 3], offk=offk, wk='mix', sweep='red', mode='multi', wrap=False)
+    # ------------------------------------------------------------------ H. supplied grids that are NOT C-contiguous: Fortran order, the
+    # [:, :, :n] view of a padded buffer, an interior block of a larger array.  The caller's array must gain the deposit.
+    for si, shape in enumerate(CIC_SHAPES):
+        bxs = boxes_for(shape)
+        for pdt in ('f4', 'f8'):
+            for li, lay in enumerate(('F', 'pad', 'block')):
+                k = si + li + (pdt == 'f8')
+                if shape[2] > 1:
+                    yield _case(e='tp', shape=shape, pdt=pdt, box=bxs[k % 3], offk=(k % 6) - 3, wk='2.5' if k % 2 else 'none',
+                                mode='lay', sweep='mini', lay=lay, acc=(k % 2 == 0))
+                    yield _case(e='tp', shape=shape, pdt=pdt, box=bxs[(k + 1) % 3], offk=((k + 2) % 6) - 3, wk='none' if k % 2 else '1',
+                                mode='lay', sweep='mini', lay=lay, acc=(k % 2 == 1), wrap=False)
+                    yield _case(e='ts', shape=shape, pdt=pdt, box=bxs[(k + 2) % 3], offk=((k + 4) % 6) - 3, wk='none' if k % 2 else '2.5',
+                                mode='lay', sweep='mini', lay=lay, acc=(k % 2 == 0), wrap=False)
+                yield _case(e='cic', shape=shape, pdt=pdt, box=bxs[k % 3], wk='2.5' if k % 2 else 'none', mode='lay', sweep='mini',
+                            lay=lay, acc=(k % 2 == 1), wrap=False)
     # ------------------------------------------------------------------ B. _tsc_scatter directly, cic_serial
     for si, shape in enumerate(TSC_SHAPES):
         bxs = boxes_for(shape)
@@ -349,6 +406,7 @@ class Ctx:
         self.offset = float(self.ft(hmin * 0.25 * c['offk']))
         if self.e == 'cic':
             assert c['offk'] == 0
+        self.lay = c.get('lay', 'C')
         self.wrap = bool(c['wrap'])
         self.ncell = int(np.prod(self.shape))
         self.G = 2 * self.shape[1] * self.shape[2] + 8
@@ -358,7 +416,7 @@ class Ctx:
         self.extra = dict(deposits=0, cells_compared=0, cells_exact=0, cells_outside_support_required_untouched=0, calls=0)
         self.worst = 0.0
         self.nt = set()
-        self.cfgkey = '|'.join(str(c[k]) for k in ('e', 'shape', 'pdt', 'gdt', 'box', 'offk', 'wk', 'nth', 'npart', 'coord', 'sort', 'wrap', 'acc', 'darg'))
+        self.cfgkey = '|'.join(str(c[k]) for k in ('e', 'shape', 'pdt', 'gdt', 'box', 'offk', 'wk', 'nth', 'npart', 'coord', 'sort', 'wrap', 'acc', 'darg', 'lay'))
         self.bchk = c.get('env') == 'bchk'
         # the deposit writes 3 cells per axis: on a 2-cell axis two of them are the same cell -> several roundings per cell
         self.nadds = int(np.prod([-(-3 // g) for g in self.shape]))
@@ -667,6 +725,88 @@ def run_roll(cx):
                             + cx.fmt(p1[t + i], None, B[sl][i], rolled[i], tol[i]))
 
 
+def layout_grid(cx, lay):
+    """a supplied grid that is not C-contiguous, embedded in a larger buffer filled with -0.0. returns (buffer, view, mask of the view)"""
+    gx, gy, gz = cx.shape
+    if lay == 'F':
+        B = np.full(cx.ncell + 2 * cx.G, -0.0, dtype=cx.gt)
+        V = B[cx.G:cx.G + cx.ncell].reshape(cx.shape, order='F')
+        M = np.zeros(B.shape, dtype=bool)
+        M[cx.G:cx.G + cx.ncell] = True
+    elif lay == 'pad':
+        B = np.full((gx + 1, gy, gz + 3), -0.0, dtype=cx.gt)
+        V = B[:gx, :, :gz]
+        M = np.zeros(B.shape, dtype=bool)
+        M[:gx, :, :gz] = True
+    elif lay == 'block':
+        B = np.full((gx + 2, gy + 2, gz + 2), -0.0, dtype=cx.gt)
+        V = B[1:-1, 1:-1, 1:-1]
+        M = np.zeros(B.shape, dtype=bool)
+        M[1:-1, 1:-1, 1:-1] = True
+    else:
+        raise AssertionError(lay)
+    V[...] = cx.base.astype(cx.gt)
+    assert V.shape == cx.shape and not V.flags.c_contiguous or cx.ncell == 1 or (lay == 'F' and V.flags.f_contiguous)
+    return B, V, M
+
+
+def run_layout(cx):
+    """every particle of the alphabet deposited alone, twice, into a non C-contiguous supplied grid"""
+    c = cx.c
+    lay = c['lay']
+    pos = cx.R.sweep_positions(cx.shape, cx.box, cx.offset, cx.ft, c['sweep'], cx.wrap, 1)
+    n = len(pos)
+    w = cx.weights(n)
+    rf = cx.make_ref(pos, w)
+    # the same deposits into fresh contiguous grids (and through the whole single-particle oracle)
+    C, _, _ = cx.check_singles(pos, w, 'layout-contiguous-twin', ref=rf)
+    if C is None:
+        return
+    out1 = np.empty((n,) + cx.shape)
+    out2 = np.empty((n,) + cx.shape)
+    P = pos.copy()
+    P2 = pos.copy()
+    eps_g = float(np.finfo(cx.gt).eps)
+    for i in range(n):
+        B, V, M = layout_grid(cx, lay)
+        assert (lay == 'F' and V.flags.f_contiguous and not V.flags.c_contiguous) or (lay != 'F' and not V.flags.c_contiguous) or cx.ncell <= 2
+        wi = None if w is None else w[i:i + 1]
+        r = cx.call(P[i:i + 1], V, wi)
+        if cx.e == 'tp' and not (r is V or (isinstance(r, np.ndarray) and np.shares_memory(r, V))):
+            cx.prob(f'layout-{lay}:return-not-shared', f'tsc_parallel returned an array that does not share memory with the supplied {lay} grid '
+                                                       f'(particle {pos[i].tolist()})')
+        out1[i] = V.astype(np.float64) - cx.base
+        cx.call(P2[i:i + 1], V, wi)
+        out2[i] = V.astype(np.float64) - cx.base
+        outside = B[~M]
+        if not (np.signbit(outside) & (outside == 0)).all():
+            cx.prob(f'layout-{lay}:surroundings', f'elements of the larger buffer outside the supplied {lay} view were written '
+                                                  f'(particle {pos[i].tolist()}): {outside[~(np.signbit(outside) & (outside == 0))][:4].tolist()}')
+    cx.extra['layout_deposits'] = cx.extra.get('layout_deposits', 0) + n
+    cx.extra['layout_accumulations'] = cx.extra.get('layout_accumulations', 0) + n
+    ref, tol, hi = rf.cells()
+    t1 = tol + (tol > 0) * cx.acc_tol(hi)
+    bad = ~(np.abs(out1 - ref) <= t1)
+    if bad.any():
+        i = int(np.nonzero(bad.reshape(n, -1).any(axis=1))[0][0])
+        cx.prob(f'layout-{lay}:kernel', f"the caller's {lay} grid did not gain the deposit: " + cx.fmt(pos[i], None if w is None else w[i], out1[i], ref[i], t1[i]))
+    t2 = 2 * tol + (tol > 0) * (2 * cx.acc_tol(2 * hi) + 4 * eps_g * hi)
+    bad = ~(np.abs(out2 - 2 * ref) <= t2)
+    if bad.any():
+        i = int(np.nonzero(bad.reshape(n, -1).any(axis=1))[0][0])
+        cx.prob(f'layout-{lay}:accumulate', f"a second call did not accumulate into the caller's {lay} grid: " + cx.fmt(pos[i], None if w is None else w[i], out2[i], 2 * ref[i], t2[i]))
+    t3 = (tol > 0) * (8 * eps_g * hi + cx.acc_tol(hi) + rf.floor)
+    bad = ~(np.abs(out1 - C) <= t3)
+    if bad.any():
+        i = int(np.nonzero(bad.reshape(n, -1).any(axis=1))[0][0])
+        cx.prob(f'layout-{lay}:vs-contiguous', f'deposit into the {lay} grid differs from the deposit into a fresh C-contiguous grid: '
+                + cx.fmt(pos[i], None if w is None else w[i], out1[i], C[i], t3[i]))
+    cx.extra['cells_compared'] += 3 * int(ref.size)
+    near = rf.nearest()[rf.W != 0]
+    for t in set(map(tuple, near.tolist())):
+        cx.nt.add(cx.cfgkey + '|%d,%d,%d' % t)
+
+
 PAIRW = [None, (1.0, 2.5), (2.5, 0.0), (2.5, 1.0)]
 
 
@@ -674,8 +814,8 @@ def run_pair(cx):
     """all ordered pairs (i, j) of the mini^3 alphabet x weight pairs: G({p_i,p_j}) == G(p_i) + G(p_j)"""
     c = cx.c
     Q = cx.R.sweep_positions(cx.shape, cx.box, cx.offset, cx.ft, c['sweep'], cx.wrap, 1)
-    if c['nth'] > 1:
-        Q = Q[::3]      # 22 points: multi-threaded calls are expensive on a shared machine
+    if c['nth'] > 1 or len(Q) > 100:
+        Q = Q[::3]      # multi-threaded calls are expensive on a shared machine; negative offsets have a larger mini alphabet
     m = len(Q)
     eps_g = float(np.finfo(cx.gt).eps)
     floor = 64 * float(np.finfo(cx.gt).tiny)
@@ -828,6 +968,8 @@ def run_one(case):
             run_pair(cx)
         elif mode == 'multi':
             sample = run_multi(cx)
+        elif mode == 'lay':
+            run_layout(cx)
         else:
             raise AssertionError(mode)
     except Rejected:
